@@ -489,7 +489,7 @@ func init() {
 				// a random sequencer cannot be re-created; its sequential semantics from the observed
 				// draw are those of a fixed sequencer starting one above the draw
 				s = rtp.NewFixedSequencer(uint16(start + 1))
-				if start < 0 || start >= 32767 {
+				if start+1 < 0 || start+1 >= 32768 { // the first value handed out is start+1: anything below 2^15, 0 included
 					o.Fail = fmt.Sprintf("random sequencer started at %d, not below 2^15", start+1)
 				}
 			}
